@@ -98,7 +98,9 @@ ASSUMPTIONS = ["the transport answers each substream request at most once and on
                "every spawned future is eventually polled; Substream::close() eventually completes",
                "adapter restrictions (schedules not explored): while a peer's connection task is held the user does not "
                "mix sync and async sends towards it (select! order; C12's subject); a connection established while the "
-               "protocol loop is held is not closed before the loop has seen it",
+               "protocol loop is held is not closed before the loop has seen it; while the protocol loop is held the remote "
+               "side of only one peer acts on its substreams (which of several handshake entries with news is reported "
+               "first is decided by the service's hash-map order)",
                "batch theorems: the per-peer worlds do not interact (all maps are keyed by peer or by a fresh substream id)"]
 KEEP_PREFIX = 1
 CONST_TABLE = [
@@ -214,7 +216,12 @@ def frag_reuse(p, rng):
     being opened and is reused by the next request (`Closed { pending_open }` + `pending_outbound`)."""
     end = rng.choice([[f"subout {p}", f"hs {p} out", f"subin {p}", f"hs {p} in", "events", f"accept {p}", "events"],
                       [f"subfail {p}", "events"], [f"subout {p}", f"rclose {p} out", "events"]])
-    return [f"open {p}", f"subin {p}", f"hs {p} in", "events", f"reject {p}", "state", f"open {p}", "state"] + end
+    head = [f"open {p}", f"subin {p}", f"hs {p} in", "events", f"reject {p}", "state"]
+    if rng.random() < 0.3:
+        # the pending substream fails / opens while the peer is `Closed { pending_open }`, then a fresh request
+        return head + [rng.choice([f"subfail {p}", f"subout {p}"]), "state", f"open {p}", "state", f"subout {p}", f"hs {p} out",
+                       "events", "state"]
+    return head + [f"open {p}", "state"] + end
 
 
 def frag_clog(p, rng):
